@@ -574,38 +574,7 @@ def check_pair(ctx) -> None:
                 ctx.bad("C01.pair", rr, n, "a reaction is removed without removing both of its solver variables")
     if not found:
         ctx.bad("C01.pair", rr, rr.node, "remove_reactions no longer removes the reaction's solver variables")
-    # _populate_solver: both variables created and added
-    ps = prog.func("cobra.core.model", "Model._populate_solver")
-    created = {}
-    for n in walk_local(ps.node):
-        if isinstance(n, ast.Assign) and isinstance(n.value, ast.Call) and any(t == ("optctor", "OVar") for t in ctx.inf.type_of(ps, n.value.func)):
-            arg = n.value.args[0] if n.value.args else None
-            if arg is not None and isinstance(n.targets[0], ast.Name):
-                created[n.targets[0].id] = "REV" if tag_of(ctx, ps, arg) == {"REV"} else "FWD"
-    added = set()
-    for n in walk_local(ps.node):
-        if isinstance(n, ast.Call) and isinstance(n.func, ast.Attribute) and n.func.attr == "add_cons_vars" and n.args:
-            for x in ast.walk(n.args[0]):
-                if isinstance(x, ast.Name) and x.id in created:
-                    added.add(created[x.id])
-    if set(created.values()) == {"FWD", "REV"} and added == {"FWD", "REV"}:
-        ctx.ok("C01.pair", ps, "Variable(reaction.id), Variable(reaction.reverse_id)", "both variables are created and added")
-    else:
-        ctx.bad("C01.pair", ps, ps.node, f"_populate_solver creates {sorted(set(created.values()))} and adds {sorted(added)}: a reaction needs its forward and reverse variable")
-    # the coefficient terms: forward gets coeff, reverse gets -coeff (item assignments)
-    terms = {}
-    for n in walk_local(ps.node):
-        if isinstance(n, ast.Assign) and isinstance(n.targets[0], ast.Subscript) and isinstance(n.targets[0].value, ast.Subscript):
-            k = n.targets[0].slice
-            if isinstance(k, ast.Name) and k.id in created:
-                terms[created[k.id]] = n.value
-    if set(terms) == {"FWD", "REV"}:
-        if _negation(terms["REV"], terms["FWD"]):
-            ctx.ok("C01.sign", ps, "constraint_terms[constraint][forward/reverse] = coeff / -coeff", "coefficients {forward: c, reverse: -c}")
-        else:
-            ctx.bad("C01.sign", ps, terms["REV"], "the reverse variable's stoichiometric coefficient is not the negation of the forward variable's")
-    else:
-        ctx.bad("C01.sign", ps, ps.node, "_populate_solver no longer records a coefficient for both variables of a reaction")
+    # _populate_solver: evaluated in check_populate
 
 
 def _leaf_blocks(stmts: List[ast.stmt]) -> List[List[ast.stmt]]:
@@ -692,36 +661,202 @@ def check_bounds(ctx) -> None:
 # ---------------------------------------------------------------------------------------- members
 def check_populate(ctx) -> None:
     """_populate_solver is the function that (re)creates the solver side of reactions - also as the undo of a removal,
-    where the variables are re-added first and therefore already exist. Its bounds and coefficient passes must cover
-    every reaction it was given, not a filtered subset."""
-    fn = ctx.prog.func("cobra.core.model", "Model._populate_solver")
-    param = [p for p in fn.params if p != (fn.self_name or "self")][0]
-    loops = [n for n in walk_local(fn.node) if isinstance(n, ast.For)]
-    seen = {"bounds": None, "coefficients": None}
-    for lp in loops:
-        txt = " ".join(ast.unparse(lp).split())
-        kind = None
-        if "update_variable_bounds()" in txt:
-            kind = "bounds"
-        elif any(isinstance(x, ast.Assign) and "constraint_terms[" in norm(x.targets[0]) for x in ast.walk(lp)):
-            kind = "coefficients"
-        if kind is None or seen[kind] is not None:
-            continue
-        it = lp.iter
-        whole = isinstance(it, ast.Name) and it.id == param
-        if not whole and isinstance(it, ast.Name):
-            defs = [n for n in walk_local(fn.node) if isinstance(n, ast.Assign) and len(n.targets) == 1 and isinstance(n.targets[0], ast.Name) and n.targets[0].id == it.id]
-            whole = len(defs) == 1 and norm(defs[0].value) in (f"list({param})", f"tuple({param})", f"{param}[:]", param) and not any(
-                isinstance(c, ast.Call) and isinstance(c.func, ast.Attribute) and isinstance(c.func.value, ast.Name) and c.func.value.id == it.id and c.func.attr in ("remove", "pop", "append") for c in walk_local(fn.node))
-        skipping = [n for n in ast.walk(lp) if isinstance(n, ast.Continue)]
-        seen[kind] = lp
-        if whole and not skipping:
-            ctx.ok("C01.sync", fn, lp, f"the {kind} pass covers every reaction of `{param}`")
+    where the variables are re-added first and therefore already exist. Evaluated by the analyser's interpreter on
+    stand-in models: afterwards the solver must hold, for every reaction it was given, both variables, freshly written
+    bounds, and in every metabolite's mass balance (an equality to zero) the coefficient c on the forward and -c on
+    the reverse variable - whatever was there before. No shape of the code is prescribed."""
+    from ..absint import EvalRaise, Unknown
+    from ..interp import Interp
+    from ..lpmodel import Cons, Container, Lin, Problem, Var
+
+    prog = ctx.prog
+    fn = prog.func("cobra.core.model", "Model._populate_solver")
+
+    class _S:
+        pass
+
+    class _Met(_S):
+        def __init__(self, id_):
+            self.id = id_
+
+    class _Rxn(_S):
+        def __init__(self, id_, mets, lb, ub):
+            self.id, self.metabolites, self.lower_bound, self.upper_bound = id_, dict(mets), lb, ub
+            self._model = None
+            self.bounds_written = 0
+
+        @property
+        def reverse_id(self):
+            return self.id + "_reverse"
+
+        @property
+        def forward_variable(self):
+            return self._model.variables[self.id] if self._model is not None and self.id in self._model.variables else None
+
+        @property
+        def reverse_variable(self):
+            return self._model.variables[self.reverse_id] if self._model is not None and self.reverse_id in self._model.variables else None
+
+        @property
+        def bounds(self):
+            return (self.lower_bound, self.upper_bound)
+
+        def update_variable_bounds(self):
+            f, r = self.forward_variable, self.reverse_variable
+            if f is None or r is None:
+                raise KeyError(self.id)
+            f.lb, f.ub = max(0.0, self.lower_bound), max(0.0, self.upper_bound)
+            r.lb, r.ub = max(0.0, -self.upper_bound), max(0.0, -self.lower_bound)
+            self.bounds_written += 1
+
+    class _RL(_S, list):
+        def get_by_id(self, rid):
+            for r in self:
+                if r.id == rid:
+                    return r
+            raise KeyError(rid)
+
+        def has_id(self, rid):
+            return any(r.id == rid for r in self)
+
+        def __contains__(self, x):
+            return any(r is x or r.id == x for r in self)
+
+    class _Solver(_S):
+        def __init__(self, m):
+            self._m = m
+
+        def update(self):
+            return None
+
+        @property
+        def variables(self):
+            return self._m.variables
+
+        @property
+        def constraints(self):
+            return self._m.constraints
+
+        def add(self, what, sloppy=False):
+            self._m.add_cons_vars(what, sloppy=sloppy)
+
+    class _AV(_S, dict):
+        def __missing__(self, k):
+            v = self[k] = _AV()
+            return v
+
+    class _Model(_S):
+        problem = Problem
+
+        def __init__(self, rxns):
+            self.reactions = _RL(rxns)
+            for r in rxns:
+                r._model = self
+            self.variables, self.constraints = Container(), Container()
+            self.solver = _Solver(self)
+            self._contexts = []
+
+        def add_cons_vars(self, what, sloppy=False, **kw):
+            for x in (list(what) if isinstance(what, (list, tuple, set)) else [what]):
+                box = self.variables if isinstance(x, Var) else self.constraints
+                if x.name in box:
+                    raise ValueError(f"the solver already holds {x.name}")
+                box.items.append(x)
+
+    def fresh():
+        a, b, c = _Met("a"), _Met("b"), _Met("c")
+        r1 = _Rxn("R1", {a: -1.0, b: 2.0}, -10.0, 1000.0)
+        r2 = _Rxn("R2", {b: -1.0, c: 1.0}, 0.0, 5.0)
+        r3 = _Rxn("R3", {c: -3.0}, -7.0, -2.0)
+        return (a, b, c), (r1, r2, r3)
+
+    def state(m, rxns) -> List[str]:
+        """Deviations of the solver side from the model side for the given reactions."""
+        out = []
+        for r in rxns:
+            f, v = r.forward_variable, r.reverse_variable
+            if f is None or v is None:
+                out.append(f"{r.id}: {'forward' if f is None else 'reverse'} variable missing")
+                continue
+            want = (max(0.0, r.lower_bound), max(0.0, r.upper_bound), max(0.0, -r.upper_bound), max(0.0, -r.lower_bound))
+            if (f.lb, f.ub, v.lb, v.ub) != want:
+                out.append(f"{r.id}: variable bounds {(f.lb, f.ub, v.lb, v.ub)} instead of {want} for reaction bounds {r.bounds}")
+            for met, coeff in r.metabolites.items():
+                if met.id not in m.constraints:
+                    out.append(f"{r.id}: no mass balance for {met.id}")
+                    continue
+                con = m.constraints[met.id]
+                if (con.lb, con.ub) != (0, 0) or con.expression.const != 0:
+                    out.append(f"mass balance of {met.id} is {con.lb} <= . <= {con.ub}, not an equality to zero")
+                got = (con.expression.terms.get(f, 0.0), con.expression.terms.get(v, 0.0))
+                if got != (coeff, -coeff):
+                    out.append(f"{r.id} in the mass balance of {met.id}: coefficients (forward, reverse) = {got} instead of {(coeff, -coeff)}")
+        return out
+
+    def run(m, args, kwargs):
+        it = Interp(prog, (_S, Var, Cons, Container, Lin, Problem), [], {"cobra.util.util.AutoVivification": lambda it_, ev, c, a, k: _AV(), "cobra.util.AutoVivification": lambda it_, ev, c, a, k: _AV()}, globals_={"Zero": Lin()})
+        try:
+            it.call(fn, args, kwargs, selfobj=m)
+            return None
+        except EvalRaise as exc:
+            return f"raises {exc.exc_type}"
+        except Unknown as exc:
+            raise AnalysisError(f"C01.sync: Model._populate_solver cannot be evaluated: {exc}")
+
+    scenarios = []
+    # 1. fresh reactions, no metabolite list
+    (a, b, c), rx = fresh()
+    m = _Model(rx)
+    scenarios.append(("three new reactions into an empty solver", m, [list(rx)], {}, rx))
+    # 2. with the metabolite list (one metabolite without a reaction)
+    (a, b, c), rx = fresh()
+    m = _Model(rx)
+    lone = _Met("lone")
+    scenarios.append(("new reactions and their metabolites (one in no reaction)", m, [list(rx), [a, b, c, lone]], {}, rx))
+    # 3. undo of a removal: the variables of R2 are back in the solver (stale bounds, no coefficients), the others complete
+    (a, b, c), rx = fresh()
+    m = _Model(rx)
+    err = run(m, [list(rx)], {})
+    if err is None:
+        r2 = rx[1]
+        for con in m.constraints:
+            con.expression = Lin({v: k for v, k in con.expression.terms.items() if v.name not in (r2.id, r2.reverse_id)})
+        r2.forward_variable.lb, r2.forward_variable.ub, r2.reverse_variable.lb, r2.reverse_variable.ub = None, None, None, None
+        r2.lower_bound, r2.upper_bound = -4.0, 9.0
+        scenarios.append(("a reaction whose variables already exist (undo of a removal: variables re-added, bounds and coefficients not)", m, [[r2]], {}, (r2,)))
+    # 4. one existing and one new reaction in the same call, existing mass balances
+    (a, b, c), rx = fresh()
+    m = _Model(rx[:2])
+    err4 = run(m, [list(rx[:2])], {})
+    if err4 is None:
+        r1, r2, r3 = rx
+        m.reactions.append(r3)
+        r3._model = m
+        for con in m.constraints:
+            con.expression = Lin({v: k for v, k in con.expression.terms.items() if v.name not in (r1.id, r1.reverse_id)})
+        r1.lower_bound = -3.0
+        scenarios.append(("an existing and a new reaction in one call, mass balances partly present", m, [[r1, r3]], {}, (r1, r3)))
+    n_ok = 0
+    for label, m, args, kwargs, expect in scenarios:
+        err = run(m, args, kwargs)
+        devs = [err] if err else state(m, expect)
+        if len(args) > 1 and not err:
+            for met in args[1]:
+                if met.id not in m.constraints:
+                    devs.append(f"no mass balance was created for metabolite {met.id} of the metabolite list")
+                elif (m.constraints[met.id].lb, m.constraints[met.id].ub) != (0, 0):
+                    devs.append(f"mass balance of {met.id} is not an equality to zero")
+        if devs:
+            rule = "C01.sign" if any("coefficients (forward, reverse)" in d for d in devs) and not any("variable missing" in d or "bounds" in d for d in devs) else ("C01.pair" if any("variable missing" in d for d in devs) else "C01.sync")
+            ctx.bad(rule, fn, fn.node, f"after _populate_solver on {label} the solver does not mirror the model: " + "; ".join(devs[:3]))
         else:
-            ctx.bad("C01.sync", fn, lp, f"the {kind} pass of _populate_solver runs over `{norm(it)}`, not over every reaction it was given: when it re-creates a removed reaction on context exit the variables already exist (they are re-added first), so that reaction's {kind} are never written to the solver - the model reports one thing, the solver holds another")
-    for kind, lp in seen.items():
-        if lp is None:
-            ctx.bad("C01.sync", fn, fn.node, f"_populate_solver has no {kind} pass over its reactions")
+            n_ok += 1
+            ctx.ok("C01.sync", fn, label, f"{label}: both variables, bounds written, mass balances hold c on the forward and -c on the reverse variable (evaluated)")
+    if n_ok == len(scenarios) and len(scenarios) == 4:
+        ctx.ok("C01.pair", fn, "Variable(reaction.id), Variable(reaction.reverse_id)", "both variables are created and added (evaluated)")
+        ctx.ok("C01.sign", fn, "coefficients", "coefficients {forward: c, reverse: -c} (evaluated)")
+    elif len(scenarios) < 4:
+        ctx.bad("C01.sync", fn, fn.node, f"_populate_solver on three new reactions {err or err4}")
 
 
 def _solver_kinds(ctx, fn: FuncInfo, arg: ast.AST) -> Set[str]:
